@@ -78,3 +78,37 @@ package py
 //@   trusted
 //@   modifies cbruns[store]
 //@   ensures ran: cbruns[store] == old(cbruns[store]) + 1
+
+// ---- exceptions and line table (C02, C05) ----
+
+//@ ghost lasterr object
+
+//@ func (*Code).Addr2Line(co, addrq) (line)
+//@   trusted
+//@   pure
+//@   ensures dec: line == lnodec(co, addrq)
+
+//@ func IsException(exception, x) (res)
+//@   trusted
+//@   pure
+//@   ensures m: res <==> excmatch(exception, x)
+
+// ---- py/frame.go: the block stack (C02, C12) ----
+
+//@ elemptr TryBlock
+
+//@ spec blockWF(f *Frame) bool = (len(f.Blockstack) == 0 ==> f.Block == nil) && (len(f.Blockstack) > 0 ==> f.Block == eaddr(f.Blockstack, len(f.Blockstack) - 1))
+
+//@ func (*Frame).PushBlock(f, Type, Handler, Level)
+//@   modifies f.Blockstack, f.Block, mem(f.Blockstack)
+//@   ensures len: len(f.Blockstack) == len(old(f.Blockstack)) + 1
+//@   ensures top: f.Block != nil && f.Block.Type == Type && f.Block.Handler == Handler && f.Block.Level == Level
+//@   ensures wf: blockWF(f)
+//@   ensures below: forall k in [0, len(old(f.Blockstack))): f.Blockstack[k] == old(f.Blockstack[k])
+
+//@ func (*Frame).PopBlock(f)
+//@   requires nonempty: len(f.Blockstack) > 0
+//@   modifies f.Blockstack, f.Block
+//@   ensures len: len(f.Blockstack) == len(old(f.Blockstack)) - 1
+//@   ensures wf: blockWF(f)
+//@   ensures same: ref(f.Blockstack) == old(ref(f.Blockstack)) && off(f.Blockstack) == old(off(f.Blockstack))
